@@ -28,6 +28,8 @@ pub struct CellKnobs {
     pub ctor: Ctor,
     /// restrict safety table to touch-only (needed by `KinematicsWithShape::new`)
     pub touch_only: bool,
+    /// sparse cell: small safety distances, few and distant obstacles (many free postures)
+    pub sparse: bool,
 }
 
 #[derive(Clone, Copy, PartialEq, Eq)]
@@ -92,7 +94,7 @@ pub fn gen_limits(w: &mut Rng, kind: LimitKind) -> Option<([f64; 6], [f64; 6])> 
     }
 }
 
-pub fn gen_safety(w: &mut Rng, has_tool: bool, has_base: bool, n_env: usize, touch_only: bool) -> SafetySpec {
+pub fn gen_safety(w: &mut Rng, has_tool: bool, has_base: bool, n_env: usize, touch_only: bool, sparse: bool) -> SafetySpec {
     let mode = match w.below(10) {
         0 => Mode::NoCheck,
         1..=4 => Mode::First,
@@ -110,8 +112,12 @@ pub fn gen_safety(w: &mut Rng, has_tool: bool, has_base: bool, n_env: usize, tou
             _ => w.range_f64(0.15, 0.35) as f32,
         }
     };
-    let to_env = dist(w);
-    let to_robot = dist(w).min(0.12);
+    let mut to_env = dist(w);
+    let mut to_robot = dist(w).min(0.06) * if w.chance(0.5) { 0.5 } else { 1.0 };
+    if sparse {
+        to_env = to_env.min(0.02);
+        to_robot = to_robot.min(0.008);
+    }
     let mut ids: Vec<usize> = (0..6).collect();
     if has_tool {
         ids.push(J_TOOL);
@@ -156,7 +162,7 @@ pub fn gen_posture(w: &mut Rng, limits: &Option<([f64; 6], [f64; 6])>) -> [f64; 
         };
     }
     // folded postures make self-collisions frequent
-    if w.chance(0.5) {
+    if w.chance(0.3) {
         q[1] = w.range_f64(0.8, 2.6) * if w.chance(0.5) { 1.0 } else { -1.0 };
         q[2] = w.range_f64(0.8, 2.8) * if w.chance(0.5) { 1.0 } else { -1.0 };
     }
@@ -188,12 +194,12 @@ pub fn gen_robot(w: &mut Rng, k: &CellKnobs) -> CellSpec {
         .min(k.max_sub.max(1))
     };
     let mut links = vec![
-        MeshSpec::cube([1.6 * r, 1.6 * r, c1 * 0.45], [0.0, 0.0, -c1 * 0.45], sub(w)),
-        MeshSpec::cube([r, r, c2 * 0.45], [0.0, 0.0, c2 * 0.5], sub(w)),
-        MeshSpec::cube([a2.abs() * 0.5 + r, r, r], [a2 * 0.5, 0.0, 0.0], sub(w)),
-        MeshSpec::cube([0.8 * r, 0.8 * r, c3 * 0.4], [0.0, 0.0, c3 * 0.5], sub(w)),
-        MeshSpec::cube([0.7 * r, 0.7 * r, (c4 * 0.4).max(0.02)], [0.0, 0.0, c4 * 0.4], sub(w)),
-        MeshSpec::cube([0.6 * r, 0.6 * r, 0.015], [0.0, 0.0, 0.0], sub(w)),
+        MeshSpec::cube([1.5 * r, 1.5 * r, c1 * 0.33], [0.0, 0.0, -c1 * 0.6], sub(w)),
+        MeshSpec::cube([r, r, c2 * 0.30], [0.0, 0.0, c2 * 0.48], sub(w)),
+        MeshSpec::cube([a2.abs() * 0.5 + 0.8 * r, 0.8 * r, 0.8 * r], [a2 * 0.5, 0.0, 0.0], sub(w)),
+        MeshSpec::cube([0.7 * r, 0.7 * r, c3 * 0.27], [0.0, 0.0, c3 * 0.57], sub(w)),
+        MeshSpec::cube([0.6 * r, 0.6 * r, (c4 * 0.3).max(0.015)], [0.0, 0.0, c4 * 0.45], sub(w)),
+        MeshSpec::cube([0.5 * r, 0.5 * r, 0.012], [0.0, 0.0, 0.0], sub(w)),
     ];
     for m in links.iter_mut() {
         for a in 0..3 {
@@ -256,7 +262,7 @@ pub enum Relation {
 /// Add environment bodies placed relative to where the robot's bodies are at `anchor`.
 /// Returns the relation used for each body (reach statistics).
 pub fn add_environment(w: &mut Rng, cell: &mut CellSpec, anchor: &[f64; 6], k: &CellKnobs) -> Vec<Relation> {
-    let n_env = w.below(k.max_env + 1);
+    let n_env = w.below(if k.sparse { k.max_env.min(2) } else { k.max_env } + 1);
     let mut rels = Vec::new();
     if n_env == 0 {
         return rels;
@@ -281,10 +287,10 @@ pub fn add_environment(w: &mut Rng, cell: &mut CellSpec, anchor: &[f64; 6], k: &
         let bb = world_aabb(tmesh, &tpose);
         let c = bb.center();
         let he = bb.half_extents();
-        let rel = match w.below(10) {
-            0 | 1 => Relation::Free,
-            2 | 3 => Relation::Penetrating,
-            4..=6 => Relation::Grazing,
+        let rel = match if k.sparse { w.below(14) } else { w.below(20) } {
+            0..=7 => Relation::Free,
+            8..=10 => Relation::Penetrating,
+            11..=15 => Relation::Grazing,
             _ => Relation::Enclosed,
         };
         let axis = w.below(3);
@@ -296,7 +302,13 @@ pub fn add_environment(w: &mut Rng, cell: &mut CellSpec, anchor: &[f64; 6], k: &
                 EnvSpec {
                     mesh: MeshSpec::cube(half, [0.0; 3], 1 + w.below(k.max_sub as usize) as u8),
                     pose: PoseSpec {
-                        t: [w.range_f64(-2.5, 2.5), w.range_f64(-2.5, 2.5), w.range_f64(-0.5, 2.5)],
+                        t: if k.sparse {
+                            let a = w.range_f64(-PI, PI);
+                            let d = w.range_f64(1.6, 3.0);
+                            [d * a.cos(), d * a.sin(), w.range_f64(-0.5, 2.0)]
+                        } else {
+                            [w.range_f64(-2.5, 2.5), w.range_f64(-2.5, 2.5), w.range_f64(-0.5, 2.5)]
+                        },
                         rpy: [w.range_f64(-PI, PI), w.range_f64(-1.0, 1.0), w.range_f64(-PI, PI)],
                     },
                 }
